@@ -15,7 +15,6 @@ is the Lean predicate's.  Histories of several calls on ONE grid object (differe
 
 from __future__ import annotations
 
-import copy
 from fractions import Fraction
 
 import numpy as np
@@ -65,6 +64,17 @@ def sample_path(rel):
 
     p = common.REPO / rel
     return p if p.exists() else Path("/repo") / rel
+
+
+def balanced(n, rng):
+    """closed mixed mesh with n_node = n_face: a random hull (F = 2n-4) with pairs of faces merged until F = n"""
+    m = meshes.hull(n, rng)
+    for _ in range(6 * n):
+        if m.n_face <= m.n_node:
+            break
+        m = m.merge_some(rng, tries=1)
+    m.kind = f"balanced{n}"
+    return m
 
 
 def mesh_dict(m):
@@ -224,14 +234,17 @@ def run_call(ctx, ux, g, sizes, ref, call, inp):
         "C06.judge", sizes["n_face"], sizes["n_node"], sizes["n_edge"], GID, enc_floats(areas),
         enc_arr(call["dims"], call["shape"], as_float, call["name"], GID), obs,
     ).split()
-    # spec k c… model X asis Y self s vals n (num den)…
+    # spec k c… model X asis Y dsasis Z self s vals n (num den)…
     k = int(ans[1])
     bad = ans[2 : 2 + k]
     rest = ans[2 + k :]
-    model, asis, self_bad = rest[1], rest[3], int(rest[5])
-    nv = int(rest[7])
-    exact = [Fraction(int(rest[8 + 2 * i]), int(rest[9 + 2 * i])) for i in range(nv)]
-    model_out = dict(outcome=model, asis_model=asis, exact_values=[float(x) for x in exact[:64]])
+    model, asis, dsasis, self_bad = rest[1], rest[3], rest[5], int(rest[7])
+    nv = int(rest[9])
+    exact = [Fraction(int(rest[10 + 2 * i]), int(rest[11 + 2 * i])) for i in range(nv)]
+    model_out = dict(outcome=model, asis_model=asis, legacy_dataset_model=dsasis, exact_values=[float(x) for x in exact[:64]])
+    if via == "dataset-integrate" and len(call["shape"]) == 1 and (dsasis == "ok") != (res is not None):
+        # the model of the known-finding method itself (1-D fragment) must still describe the code
+        ctx.mismatch("C06/legacy-dataset-decision-table", inp, observed, model_out)
     if self_bad:
         ctx.mismatch("C06/model-output-fails-its-own-spec", inp, observed, model_out)
     # cross-check of the driver's exact arithmetic by an independent exact sum (small cases)
@@ -245,7 +258,7 @@ def run_call(ctx, ux, g, sizes, ref, call, inp):
         ctx.hit("driver-sum-cross-checked")
     # correspondence of outcomes (the decision table): ok vs rejected
     impl_ok = res is not None
-    if not bad and (model == "ok") != impl_ok:
+    if not bad and via != "dataset-integrate" and (model == "ok") != impl_ok:
         # only possible where the Spec demands nothing (malformed input)
         ctx.mismatch("C06/decision-table", inp, observed, model_out)
     if bad:
@@ -378,8 +391,6 @@ def sizes_of(md):
 
 def driver_selftest(ctx):
     """the exact float→rational decoding of the driver against Python's Fraction"""
-    import struct
-
     rng = ctx.rng
     vals = [0.0, -0.0, 1.0, -1.5, 5e-324, 2.2250738585072014e-308, 1.7976931348623157e308, 0.1]
     vals += [rng.uniform(-1, 1) * 10.0 ** rng.randint(-300, 300) for _ in range(40)]
@@ -395,16 +406,13 @@ def driver_selftest(ctx):
 
 
 def corpus_cases(ctx):
-    """minimal witnesses kept from past failures (run first)"""
-    rng = ctx.rng
-    t = pyramid(3, rng)
+    """minimal witnesses kept from past failures (corpus/C06/*.json, run first)"""
+    import json
+
     out = []
-    for elem in ("n_node",):
-        out.append(dict(mesh=mesh_dict(t), pre=[], calls=[dict(rule="triangular", order=4, dims=[elem], shape=[4], dtype="float64",
-                                                               name="v", data=[0.0, 1.0, 2.0, 3.0])]))
-    p = polygon(5, rng)
-    out.append(dict(mesh=mesh_dict(p), pre=[], calls=[dict(rule="triangular", order=4, dims=["n_edge"], shape=[5], dtype="float64",
-                                                           name="v", data=[1.0, 2.0, 3.0, 4.0, 5.0])]))
+    for f in sorted((common.CORPUS / "C06").glob("*.json")):
+        out.append(json.loads(f.read_text()))
+    ctx.hit("corpus-cases", len(out))
     return out
 
 
@@ -431,13 +439,14 @@ def run(ctx):
         judge_history(ctx, case, "corpus")
     pool = []
     ms = [pyramid(3, rng), pyramid(rng.choice([4, 5, 6, 7]), rng), meshes.hull(4, rng), polygon(rng.choice([3, 4, 5, 6, 7, 8]), rng),
-          meshes.isolated(rng.choice([2, 3]))]
+          meshes.isolated(rng.choice([2, 3])), balanced(rng.choice([6, 7, 8, 9]), rng)]
     zoo = meshes.zoo(rng, big=False)
     rng.shuffle(zoo)
     ms += zoo[: ctx.n(6, len(zoo))]
-    for rep in range(ctx.n(0, 2)):
+    for rep in range(ctx.n(0, 6)):
         z = meshes.zoo(rng, big=(rep == 0))
-        ms += z + [pyramid(rng.choice([3, 4, 8]), rng), polygon(rng.choice([3, 6, 8]), rng)]
+        ms += z + [pyramid(k, rng) for k in (3, 4, 5, 6, 7, 8)] + [polygon(k, rng) for k in (3, 4, 5, 6, 7, 8)]
+        ms += [meshes.isolated(k) for k in (1, 2, 3)] + [balanced(n, rng) for n in (5, 6, 8, 10, 13)]
     for m in ms:
         md = mesh_dict(m)
         try:
@@ -446,7 +455,7 @@ def run(ctx):
             ctx.hit(f"skipped:grid-construction-{type(e).__name__}")
             continue
         big = sizes["n_face"] > 150
-        judge_history(ctx, history_for(ctx, md, sizes, pool, ctx.n(2, 4), big=big))
+        judge_history(ctx, history_for(ctx, md, sizes, pool, ctx.n(2, 5), big=big))
     files = ["quad-hexagon"] if not (ctx.thorough or ctx.escalate) else list(FILES)
     for f in files:
         md = dict(file=FILES[f], kind=f)
